@@ -17,10 +17,18 @@ Complete enumeration of two finite table sets on the real code (both compiled un
     Block channels: {block start} == {fn : chan matches and bid == 0} per direction.  TCH and its
     SACCH (scheduled frame by frame, rx and tx by the same item set): per-frame sets, against both
     directions of the layout.  SACCH is told apart by MF_F_SACCH in p3.
+(c) sched_trx: the tree's real sched_trx.c (+ sched_mframe.c, sched_lchan_desc.c; recording lchan handlers)
+    is driven for every (implemented combination, tn): l1sched_configure_ts / activate, then
+    l1sched_handle_rx_burst() for every FN of a cycle and across the hyperframe wrap, loss-free and with
+    every (start phase 0..period-1) x (1..3 lost frames; thorough 1..8) loss pattern, and
+    l1sched_pull_burst() / l1sched_handle_rx_probe() for every FN.  No sanitizer report (a lookup outside
+    a frame table), every callback's (lchan, fn, bid) is the layout's entry for that fn, every lost frame
+    of an lchan is substituted by one dummy burst with the lost frame's own fn and bid.
 (b) trxcon-internal: bids cycle 0,1,2,3 (0,1 for TCH/H) around the period; every chan used is in
     lchan_mask; every lookup stays in the table (ASan); every (config, tn) of a combination the
     stacks implement returns a layout of that combination whose slotmask contains tn.
 """
+import json
 import os
 import re
 
@@ -114,6 +122,70 @@ def _build(name):
                           "-I", os.path.join(cbuild.CSRC, "shim_trxcon"),
                           "-I", os.path.join(cbuild.LIBOSMO, "include")])
     return b, fw, trx
+
+
+def _build_sched(b):
+    """The real scheduler core of trxcon: sched_trx.c + sched_mframe.c + sched_lchan_desc.c, unmodified."""
+    return cbuild.compile(b, "c11sched", [os.path.join(cbuild.CSRC, "drv_c11_sched.c"),
+                                          os.path.join(cbuild.TRXCON, "src/sched_trx.c"),
+                                          os.path.join(cbuild.TRXCON, "src/sched_mframe.c"),
+                                          os.path.join(cbuild.TRXCON, "src/sched_lchan_desc.c")],
+                          ["-I", os.path.join(cbuild.TRXCON, "include"),
+                           "-I", os.path.join(cbuild.CSRC, "shim_trxcon_sched"),
+                           "-I", os.path.join(cbuild.CSRC, "shim_trxcon"),
+                           "-I", os.path.join(cbuild.LIBOSMO, "include")])
+
+
+_sched_exe = None
+SCHED_COUNTERS = ("streams", "reconfigurations", "rx_bursts_fed", "rx_frames_lost", "rx_callbacks_real",
+                  "rx_callbacks_dummy", "tx_pulls", "tx_callbacks", "probes", "probes_active")
+
+
+def _sched_run(arg):
+    """One (config, tn) slice (or a single stream of it) of the sched_trx leg.
+    -> {"cov": {...}, "viol": [(key, case, msg)], "complete": bool}"""
+    pn, c, tn, extra = arg
+    rc, out, err = cbuild.run(_sched_exe, [c, tn] + list(extra))
+    res = {"cov": {"sched_" + k: 0 for k in SCHED_COUNTERS}, "viol": [], "complete": False, "nolayout": False}
+    res["cov"]["sched_slices"] = 1
+    lastq, ctxline, js = None, None, None
+    for line in out.decode().splitlines():
+        if line.startswith("Q "):
+            lastq = line.split()[1:]
+        elif line.startswith("A "):
+            ctxline = dict(p.split("=") for p in line.split()[1:])
+        elif line.startswith("N "):
+            res["nolayout"] = True
+        elif line.startswith("V "):
+            f = dict(p.split("=", 1) for p in line.split()[1:7])
+            msg = line.split(" ", 7)[7] if len(line.split(" ", 7)) > 7 else line
+            case = {"side": "sched", "pchan": pn, "config": c, "tn": tn, "mode": f["mode"], "base": int(f["base"]),
+                    "phase": int(f["phase"]), "len": int(f["len"])}
+            res["viol"].append(("C11:sched_trx:%s:%s" % (pn, f["kind"]), case,
+                                "%s tn=%d, %s stream from fn=%s%s: %s"
+                                % (pn, tn, f["mode"], f["base"],
+                                   (" with %s frame(s) lost from phase %s of every multiframe" % (f["len"], f["phase"]))
+                                   if f["mode"] == "loss" else "", msg)))
+        elif line.startswith("{"):
+            js = json.loads(line)
+    if js is not None:
+        for k in SCHED_COUNTERS:
+            res["cov"]["sched_" + k] += js[k]
+        res["complete"] = True
+    elif not res["nolayout"]:
+        # sanitizer report / signal inside the scheduler: attribute it to the stream and burst at hand
+        e = err.decode()
+        q = ctxline or ({"mode": lastq[0], "base": lastq[1], "phase": lastq[2], "len": lastq[3], "fn": "?"} if lastq else None)
+        kind = "table-overrun" if ("global-buffer-overflow" in e and "frame_" in e) else "crash"
+        case = {"side": "sched", "pchan": pn, "config": c, "tn": tn}
+        where = "before the first stream"
+        if q:
+            case.update({"mode": q["mode"], "base": int(q["base"]), "phase": int(q["phase"]), "len": int(q["len"])})
+            where = "in the %s stream from fn=%s%s while handling the burst fn=%s" % (
+                q["mode"], q["base"], (" (%s frame(s) lost from phase %s)" % (q["len"], q["phase"])) if q["mode"] == "loss" else "", q["fn"])
+        res["viol"].append(("C11:sched_trx:%s:%s" % (pn, kind), case,
+                            "%s tn=%d: scheduler died (rc=%d) %s: %s" % (pn, tn, rc, where, _san(e))))
+    return res
 
 
 def _run_fw(ctx, exe, args=()):
@@ -404,22 +476,38 @@ def run(ctx):
         cov = _check(ctx, fwres, trxres)
         c = ctx.cov
         c.update(cov)
+        # ---- (c) the real sched_trx.c, one process per (combination, tn)
+        global _sched_exe
+        _sched_exe = _build_sched(b)
+        pch = trxres[1]
+        items = [(pn, pch[pn], tn, [] if ctx.quick else [8]) for pn in IMPLEMENTED if pn in pch for tn in range(8)]
+        sched_complete = 0
+        for res in ctx.pmap(_sched_run, items, chunksize=2):
+            sched_complete += bool(res.pop("complete"))
+            res.pop("nolayout")
+            ctx.merge(res)
+        c["sched_slices_complete"] = sched_complete
+        c["sched_loss_lengths"] = [1, 3] if ctx.quick else [1, 8]
         c["xstack_task_dir_tn"] = _count_tdt(fwres, trxres)
         c["fw_cycle_bases"] = bases
         c["fw_tasks_compared"] = len([t for t in fwres[0][0] if t in CORR])
         c["fw_tasks_not_compared"] = sorted(t for t in fwres[0][0] if t not in CORR)
-        c["evaluations"] = cov["fw_frames_walked"] + cov["trxcon_lookups"] + cov["xstack_frames_compared"]
-        c["distinct_nontrivial"] = cov["xstack_nontrivial"] + cov["bid_cycles_checked"]
+        c["evaluations"] = cov["fw_frames_walked"] + cov["trxcon_lookups"] + cov["xstack_frames_compared"] \
+            + c.get("sched_rx_bursts_fed", 0) + c.get("sched_tx_pulls", 0) + c.get("sched_probes", 0)
+        c["distinct_nontrivial"] = cov["xstack_nontrivial"] + cov["bid_cycles_checked"] + c.get("sched_streams", 0)
         c["rule"] = ("every multiframe task x every fn of the 10608-frame cycle (at the cycle bases listed in fw_cycle_bases) "
                      "through mframe_schedule(); every channel combination value x tn 0..7 through l1sched_mframe_layout() "
                      "and every fn of the cycle through frames[fn % period]; every (task, combination, tn, direction, "
                      "lchan) leg of the correspondence table compared as sets over the whole cycle - a comparison is "
-                     "non-trivial when the expected set is not empty; every (layout, direction, block lchan) bid sequence")
+                     "non-trivial when the expected set is not empty; every (layout, direction, block lchan) bid sequence; "
+                     "every (combination, tn, stream) of the sched_trx leg: loss-free cycle, hyperframe wrap, every "
+                     "(start phase, loss length) pattern, tx/probe cycle - each stream counts as one non-trivial case")
         ntasks = len(fwres[0][0])
         c["exhaustive"] = bool(all(r[2] is None for r in fwres) and not trxres[3]
                                and cov["fw_tasks_walked"] == ntasks * len(bases)
                                and all(t["done"] for r in fwres for t in r[0].values())
-                               and cov["trxcon_queries"] == (trxres[1]["_GSM_PCHAN_MAX"] + 3) * 8)
+                               and cov["trxcon_queries"] == (trxres[1]["_GSM_PCHAN_MAX"] + 3) * 8
+                               and sched_complete == len(items) == len(IMPLEMENTED) * 8)
         t0 = fwres[0][0]
         ctx.sample({"task": "MF_TASK_SDCCH4_2", "calls_per_cycle": len(t0["MF_TASK_SDCCH4_2"]["calls"]),
                     "first": t0["MF_TASK_SDCCH4_2"]["calls"][:4]})
@@ -434,6 +522,9 @@ def run(ctx):
             "firmware built with ASan+UBSan minus the `shift` check (mframe_schedule() tests the task bitmap with `1 << i`, i up to 31, on an int)",
             "firmware tasks without a trxcon counterpart are walked but not compared: BCCH_EXT, GPRS_PTCCH (empty table), NEIGH_PM*, UL_ALL_NB; "
             "PDTCH is compared on the downlink only (the firmware task is receive-only)",
+            "sched_trx leg: sched_trx.c, sched_mframe.c and sched_lchan_desc.c are the tree's files; the ten lchan handlers are recording "
+            "stubs (the real ones need libosmocoding), sched_prim.c / libosmocore entry points are minimal stand-ins, talloc is flat malloc; "
+            "no ciphering, no queued Tx primitives; loss patterns repeat in every multiframe of a 3-multiframe stream",
             "SDCCH/4 and SDCCH/8 sub-channel 2 are not compared against the +CBCH combinations (the sub-slot carries the CBCH there)",
             "trxcon's sched_mframe.c is compiled against the libosmocore headers embedded in the repository plus stand-ins for "
             "gsm_utils.h (enum gsm_phys_chan_config incl. CBCH combinations) and gsm0502.h (burst length constants)",
@@ -446,6 +537,14 @@ def replay(ctx, case):
     b, fw, trx = _build("c11r")
     try:
         side = case.get("side")
+        if side == "sched":
+            global _sched_exe
+            _sched_exe = _build_sched(b)
+            extra = [case["mode"], case["base"], case["phase"], case["len"]] if "mode" in case else []
+            res = _sched_run((case["pchan"], case["config"], case["tn"], extra))
+            for v in res["viol"]:
+                ctx.violation(v[0], case, v[2])
+            return
         fwres, trxres = [], _run_trx(trx)
         if side in ("fw", "both"):
             fwres = [_run_fw(ctx, fw, [case["task"], case.get("base", 0)])]
